@@ -310,6 +310,34 @@ def run_deriv(case):
                                 got=float(d0), exact=resp))
         cnt["one_body_limit"] += 1
         sample["one_body"] = {"energy": float(e0), "exact": e_exact, "response": float(d0), "tr_rho_O": resp}
+        if case["entry"] in ("ad", "ad_nosr"):
+            # the same limit with a SMALL (but far from degenerate) HOMO-LUMO gap: the orbital response scales like 1/gap, which is where an
+            # approximate eigenvector derivative inside the differentiable SCF shows
+            g = float(np.random.default_rng(case["s"] + 77).uniform(0.03, 0.1))
+            h_small, rho_s, e_s = [], [], float(np.asarray(hd["h0"]))
+            for s_, n_s in ((0, na), (1, nb)):
+                w_, v_ = np.linalg.eigh(h1s[s_])
+                w2 = w_.copy()
+                if 0 < n_s < norb:
+                    w2[n_s:] += (w_[n_s - 1] + g) - w_[n_s]
+                h_small.append((v_ * w2) @ v_.T)
+                rho_s.append(v_[:, :n_s] @ v_[:, :n_s].T)
+                e_s += float(np.sum(w2[:n_s]))
+            if wt == "rhf":
+                h_small = [h_small[0], h_small[0]]
+            hd_s = dict(hd)
+            hd_s["chol"] = jnp.zeros_like(hd["chol"])
+            hd_s["h1"] = jnp.array(np.array(h_small))
+            hd_s = ham.build_measurement_intermediates(hd_s, trial, wd)
+            hd_s = ham.build_propagation_intermediates(hd_s, prop, trial, wd)
+            wrapper_s = lambda x, y, z: fn(ham, hd_s, x, y, prop, z, trial, wd)
+            e1, d1, _ = jax.jvp(wrapper_s, (0.0, Oj, afqmc.copy_pd(pd)), (1.0, 0.0 * Oj, ptan), has_aux=True)
+            cnt["jvp_calls"] += 1
+            resp_s = float(np.sum(rho_s[0] * Osym[0]) + np.sum(rho_s[1] * Osym[1]))
+            events.append(judge("one-body-limit/small-gap-energy", abs(float(e1) - e_s), 1e-9 * max(1.0, abs(e_s)) / g, key + "/one-body-energy-small-gap", gap=g))
+            events.append(judge("one-body-limit/small-gap-response-is-tr-rho-O", abs(float(d1) - resp_s), 1e-9 * max(1.0, abs(resp_s)) / g, key + "/one-body-response-small-gap",
+                                got=float(d1), exact=resp_s, gap=g))
+            cnt["one_body_small_gap"] = cnt.get("one_body_small_gap", 0) + 1
     return {"events": events, "nontrivial": nontriv, "sample": sample, "counters": cnt}
 
 
